@@ -2805,8 +2805,9 @@ def replace_dict_update_with_dict_literal(source: str) -> str:
         ast.Assign(targets=[target_template], value=value_template),
         ast.Expr(
             value=ast.Call(
-                func=ast.Attribute(value=target_template),
-                args=[core.Wildcard("other", object, common=False)],
+                func=ast.Attribute(value=target_template, attr="update"),
+                args=[core.Wildcard("other", (ast.Dict, ast.DictComp), common=False)],
+                keywords=[],
     )),]
 
     for transaction, (first, *matches) in enumerate(
@@ -2865,8 +2866,9 @@ def replace_dictcomp_update_with_dict_literal(source: str) -> str:
         ast.Assign(targets=[target_template], value=ast.DictComp),
         ast.Expr(
             value=ast.Call(
-                func=ast.Attribute(value=target_template),
-                args=[core.Wildcard("other", object, common=False)],
+                func=ast.Attribute(value=target_template, attr="update"),
+                args=[core.Wildcard("other", (ast.Dict, ast.DictComp), common=False)],
+                keywords=[],
     )),]
 
     for transaction, (first, *matches) in enumerate(
